@@ -280,13 +280,17 @@ HANGS = [0]
 def guarded(fn, seconds):
     if HANGS[0] >= 3:                  # enough evidence of non-termination; do not spend minutes on the rest
         return ["skipped"]
-    signal.alarm(seconds)
+    # the limit is CPU time of this process (a busy machine must not turn a slow placer into a "hang"), with a
+    # generous wall-clock backstop for a call that blocks
+    signal.setitimer(signal.ITIMER_PROF, seconds)
+    signal.alarm(max(120, 20 * int(seconds)))
     try:
         return outcome(fn)
     except implutil.Hang:
         HANGS[0] += 1
         return ["hang"]
     finally:
+        signal.setitimer(signal.ITIMER_PROF, 0)
         signal.alarm(0)
 
 
@@ -453,6 +457,7 @@ def run_case(c, per_cfg_s):
 if __name__ == "__main__":
     payload = json.load(sys.stdin)
     signal.signal(signal.SIGALRM, implutil._alarm)
+    signal.signal(signal.SIGPROF, implutil._alarm)
     if payload.get("inventory"):
         json.dump(dict(machine=machine_inventory()), sys.stdout)
         sys.exit(0)
